@@ -72,7 +72,7 @@ def generate(rng, tier="quick"):
         ops.append(twin)
     if not any(o["op"] == "save" for o in ops):
         ops.append({"op": "save", "write_data": True, "write_axes": True, "include": None, "exclude": None})
-    return {"format": 1, "property": PROP, "env": wl.gen_env(rng), "table": tbl, "config": cfg, "frontend": fe, "ops": ops}
+    return {"format": 1, "property": PROP, "env": wl.gen_env(rng), "table": tbl, "config": cfg, "frontend": fe, "ops": ops, "group_results": rng.chance(0.2)}
 
 
 def resolve_filter(f):
@@ -122,9 +122,23 @@ def execute(scn):
     seen = []
 
     def tee(gen):
+        pending = None
         for item in gen:
+            if scn.get("group_results"):
+                # a user-written stream may hand over all tests of a variable in one ContextResult (results is a list)
+                if pending is not None and pending.stream_id == item.stream_id and np.array_equal(pending.subset_indexes, item.subset_indexes):
+                    pending = pending._replace(results=list(rp.results_of(pending)) + list(rp.results_of(item)))
+                    continue
+                if pending is not None:
+                    seen.append(pending)
+                    yield pending
+                pending = item
+                continue
             seen.append(item)
             yield item
+        if pending is not None:
+            seen.append(pending)
+            yield pending
 
     stream, closer = pl.make_stream(scn["frontend"], tbl)
     try:
@@ -150,6 +164,8 @@ def execute(scn):
                 model[key]["flags"][int(row)] = fl[j]
     if any(len(m["flags"]) < n for m in model.values()):
         bump("partially_evaluated_result")
+    if any(len(rp.results_of(i)) > 1 for i in seen):
+        bump("multi_result_context_results")
     san = {}
     for key in order:
         san.setdefault(re.sub(r"[^_a-zA-Z0-9]", "_", ".".join(key)), []).append(key)
